@@ -12,6 +12,10 @@ def sh(cmd, cwd=None, env=None, timeout=1800):
     p = subprocess.run(cmd, shell=True, cwd=cwd, env=e, stdout=subprocess.PIPE, stderr=subprocess.STDOUT, text=True, timeout=timeout)
     return p.returncode, p.stdout
 
+# the checks are run from a frozen copy of /verif (rsync) so that work in /verif does not interfere
+SNAP = os.environ.get("VERIF_SNAP", "/verif")
+
+
 def main():
     wt, sd, prop, name = sys.argv[1:5]
     checks = sys.argv[5:] or [prop]
@@ -26,12 +30,14 @@ def main():
     assert rc == 0, out
     rc1, out1 = sh("/venv/bin/python %s/demo.py" % src, cwd=wt, env=env, timeout=600)
     meta["demo_with_patch_rc"] = rc1
-    rct, outt = sh("/venv/bin/python -m pytest -q -p no:cacheprovider tests -q --deselect tests/test_integration.py --deselect tests/test_utils.py::UtilsTest::test_get_file_event_id --deselect tests/test_utils.py::UtilsTest::test_get_file_event_id_tuple 2>&1 | tail -3", cwd=wt, env=env, timeout=1200)
-    meta["suite_with_patch"] = outt.strip().splitlines()[-1] if outt.strip() else ""
+    rct, outt = sh("/venv/bin/python -m pytest -q -p no:cacheprovider tests --deselect tests/test_integration.py --deselect tests/test_utils.py::UtilsTest::test_get_file_event_id --deselect tests/test_utils.py::UtilsTest::test_get_file_event_id_tuple 2>&1", cwd=wt, env=env, timeout=1200)
+    import re as _re
+    summ = [l for l in outt.splitlines() if _re.search(r"\d+ (passed|failed)", l)]
+    meta["suite_with_patch"] = summ[-1].strip() if summ else outt.strip()[-200:]
     meta["suite_with_patch_rc"] = rct
     sh("git checkout -- flumine", cwd=wt)
     print("demo without patch rc=%s, with patch rc=%s, suite: %s" % (rc0, rc1, meta["suite_with_patch"]))
-    confirmed = rc0 == 0 and rc1 != 0 and " passed" in meta["suite_with_patch"] and "failed" not in meta["suite_with_patch"]
+    confirmed = rc0 == 0 and rc1 != 0 and rct == 0 and " passed" in meta["suite_with_patch"] and "failed" not in meta["suite_with_patch"]
     meta["confirmed"] = confirmed
     # run the checks against /repo with the patch applied
     results = {}
@@ -40,13 +46,14 @@ def main():
     try:
         for c in checks:
             t0 = time.time()
-            rcc, outc = sh("cd /verif && ./check %s --tier quick" % c, timeout=3000)
+            rcc, outc = sh("cd %s && ./check %s --tier quick" % (SNAP, c), timeout=3000)
             lines = [l for l in outc.splitlines() if l.startswith(("VIOLATION", "KNOWN-FINDING", "DRIFT", "SPEC-ERROR", "MACHINERY-ERROR", "NOTE")) or " quick" in l]
             results[c] = {"exit": rcc, "wall_s": round(time.time() - t0, 1), "lines": [l[:400] for l in lines[:12]]}
             print(c, "exit", rcc, "|", " || ".join(l[:200] for l in lines[:6]))
     finally:
         sh("git -C /repo checkout -- .")
-        sh("cd /verif && git checkout -- evidence 2>/dev/null; rm -f /verif/replays/*")
+        if SNAP == "/verif":
+            sh("cd /verif && git checkout -- evidence 2>/dev/null; rm -f /verif/replays/*")
     meta["checks"] = results
     meta["detected_by"] = [c for c, r in results.items() if r["exit"] == 1]
     dst = os.path.join("/verif/seeded", name)
